@@ -45,11 +45,12 @@ RO = {"GOFLAGS": "-mod=readonly"}
 class P(vlib.Prop):
     pid = "C15"
     coq_dirs = ["Common", "C15", "Generated"]
-    coq_targets = ["C15/Properties.vo", "C15/Witness.vo", "C15/Harness.vo"]
+    coq_targets = ["C15/Properties.vo", "C15/Witness.vo", "C15/PropCheck.vo"]
     properties_module = "C15.Properties"
     properties_file = "C15/Properties.v"
     instance_obligations = []
-    harness_module = "C15.Harness"
+    harness_module = "C15.PropCheck"      # re-exports C15.Harness (check_case, model_out) and adds prop_ok / check_both
+    check_fn = "check_both"
     case_type = "nat * (list Z * list Z)"
     shard = 250
     harnesses = [
@@ -70,7 +71,9 @@ class P(vlib.Prop):
             "otlpreceiver on loopback ports (with and without an authenticator extension) + real otlp / otlphttp(proto, "
             "json) exporters with retry and queue disabled: every outcome class x transport, every offered compression x "
             "signal, every compression LEVEL x transport with multi-block bodies (160 KiB..1.3 MiB), exports that are inside the "
-            "consumer when Receiver.Shutdown starts and exports after it returned (kind 10), "
+            "consumer when Receiver.Shutdown starts and exports after it returned (kind 10), slow consumers against the "
+            "receiver's read/write timeouts (kind 11), bodies whose read ends early although the received prefix decodes "
+            "(missing compression trailer, short of Content-Length), "
             "0-item payloads, authenticator accepts/refuses, then random hops; raw HTTP requests over every "
             "(auth, content-encoding class, method, content-type class, body class) combination + random; raw gRPC frames "
             "(malformed bodies, refused credentials, every outcome).  Every case runs the implementation and is compared "
@@ -79,7 +82,7 @@ class P(vlib.Prop):
         "Coq 8.16.1 kernel + vm_compute (coqc); no axioms (Print Assumptions: closed under the global context)",
         "translator T1 (tools/go2coq): GetHTTPStatusCodeFromStatus, shouldRetry, isRetryableStatusCode and the grpc codes constants are re-read from the current source on every run",
         "table dump by running: statusutil.NewStatusFromMsgAndHTTPCode on HTTP statuses 0..999 (overlay test), written to Generated/C15StatusUtil.v",
-        "graph dumps by running (go test -overlay, whole finite domains): writeStatusResponse / readContentType / errorHandler / writeError -> Generated/C15RecvHttpGraph.v, GetStatusFromError -> Generated/C15ErrorsGraph.v (model proved equal to them in C15/Obligations.v); scan of otlpReceiver.Shutdown's stop calls -> Generated/C15Shutdown.v; offered compression sets (coverage gate)",
+        "graph dumps by running (go test -overlay, whole finite domains): writeStatusResponse / readContentType / errorHandler / writeError -> Generated/C15RecvHttpGraph.v, GetStatusFromError -> Generated/C15ErrorsGraph.v (model proved equal to them in C15/Obligations.v); scan of otlpReceiver.Shutdown's stop calls -> Generated/C15Shutdown.v; confighttp.ToServer's timeout wiring (run) -> Generated/C15ServerTimeouts.v; offered compression sets (coverage gate)",
         "hand-written OTLP specification tables spec_grpc_retryable / spec_http_retryable (C15/Model.v), transcribed from opentelemetry-proto docs/specification.md",
         "Go harnesses harness/C15/*.go + go test -overlay; Go toolchain; loopback networking",
         "modelled by hand, tied by correspondence: GetStatusFromError, Receiver.Export (items = 0), otlphttp.go handlers/writeError/writeStatusResponse/errorHandler, confighttp handler order, processError, otlphttpexporter.export",
@@ -88,6 +91,7 @@ class P(vlib.Prop):
         "grpc-go and net/http transport a status (code, details) / a response (status, headers, body) unchanged (validated by the hop harness on every run, not proved)",
         "payload codec (C08) and compression (C16) round-trip: section hypotheses of hop_delivers; the hop harness compares the sink payload with the sent one by marshalled bytes",
         "net/http Server.Shutdown and grpc-go GracefulStop wait for running handlers and deliver their responses (hypotheses of shutdown_drains_inflight; validated by the kind-10 scenarios on every transport)",
+        "net/http: ReadTimeout/ReadHeaderTimeout bound request reading only, WriteTimeout bounds the response write counted from the end of the header read (response_deliverable; validated by the kind-11 scenarios, both branches)",
         "HTTP status codes are within 0..999 (domain of the dumped NewStatusFromMsgAndHTTPCode table)",
     ]
 
@@ -164,6 +168,19 @@ class P(vlib.Prop):
             raise vlib.Broken("dump of the offered compression sets (config/confighttp) fails on the current tree: " + err.what, err.detail)
         offered = []
         for c in cases:
+            if c["term"].startswith("timeouts|"):
+                vals = [int(x) for x in c["term"].split("|")[1:]]
+                names = ["ReadTimeout", "ReadHeaderTimeout", "WriteTimeout", "IdleTimeout"]
+                text = ("(* GENERATED by props/C15/check.py by RUNNING confighttp.ServerConfig.ToServer of the current /repo working tree with\n"
+                        "   ReadTimeout = 1s, ReadHeaderTimeout = 2s, WriteTimeout = 3s, IdleTimeout = 4s and reading the fields of the returned\n"
+                        "   http.Server (harness/C15/compsets_dump_test.go) - do not edit.  Value = the configured field (1..4) found there. *)\n"
+                        "From Coq Require Import ZArith.\nLocal Open Scope Z_scope.\n\n"
+                        + "".join("Definition ToServer_%s_src : Z := %d.\n" % (n, v) for n, v in zip(names, vals)))
+                _write_if_changed(os.path.join(vlib.COQ, "Generated", "C15ServerTimeouts.v"), text)
+                ctx.translator_manifests.append({"file": "config/confighttp/confighttp.go ToServer (timeout wiring, dumped by running)", "lines": None,
+                                                 "sha256": hashlib.sha256(text.encode()).hexdigest(),
+                                                 "defines": ["ToServer_%s_src" % n for n in names], "params": None})
+                continue
             name, client, dec, enabled = c["term"].split("|")
             if client == "true" and dec == "true" and enabled == "true":
                 offered.append(name)
@@ -172,7 +189,67 @@ class P(vlib.Prop):
         self.offered_http_compressions = sorted(offered)
         ctx.extra_coverage["offered_http_compressions"] = self.offered_http_compressions
 
+    CLAUSE_NAMES = {
+        8: ["data: sink = sent payload once", "data: nothing at the sink when the consumer was not called", "consumer called / not called",
+            "success iff accepted (or: unauthenticated is permanent; empty is acknowledged)", "failure means the same on both sides",
+            "explicit status code preserved on gRPC", "throttling delay honoured"],
+        0: ["GetStatusFromError: an error is never reported as nil / explicit status code kept", "RetryInfo kept / failure class by permanence"],
+        3: ["otlp exporter vs the gRPC table", "non-retryable means permanent", "throttle only with RetryInfo, delay exact"],
+        6: ["otlphttp exporter vs the HTTP table", "non-retryable means permanent", "Retry-After seconds honoured on 429/503"],
+        7: ["consumer called / not called", "client-error status / success iff accepted", "no Retry-After on a client error / failure class",
+            "status and Retry-After of an explicit status"],
+        9: ["consumer called / not called", "gRPC code of the answer", "explicit status preserved"],
+    }
+
+    def clause_check(self, ctx):
+        """Independent oracle: the decidable checker of the property's clauses (coq/C15/PropCheck.v prop_ok, proved
+        equivalent to the Prop-level Clause) over ALL observed cases; a case on which it is false is a failing input."""
+        # the standard pass evaluated check_both = check_case && prop_ok on every case; attribute its failures
+        if not ctx.mismatches:
+            ctx.extra_coverage["clause_checker"] = {"cases": len(ctx.cases), "violations": 0}
+            return
+        cand = ctx.mismatches
+        terms = [m["term"] for m in cand]
+        failed = vlib.coq_eval_cases(ctx, "C15.PropCheck", "prop_ok", self.case_type, terms, shard=self.shard)
+        disagree = set(vlib.coq_eval_cases(ctx, "C15.PropCheck", "check_case", self.case_type, terms, shard=self.shard))
+        ctx.mismatches = [m for k, m in enumerate(cand) if k in disagree]
+        ctx.extra_coverage["clause_checker"] = {"cases": len(ctx.cases), "violations_among_first_50_failures": len(failed)}
+        harness_of = {m["term"]: m["harness"] for m in cand}
+        seen = set()
+        for i in failed:
+            term = terms[i]
+            kind = int(term.split(",")[0].strip("( "))
+            if len(seen) < 12:
+                which = vlib.coq_eval_term(ctx, "C15.PropCheck", "violated %s" % term)
+                m = __import__("re").search(r"Some (\d+)", which)
+                n = int(m.group(1)) if m else -1
+                names = self.CLAUSE_NAMES.get(8 if kind in (8, 10, 11) else kind, [])
+                name = names[n] if 0 <= n < len(names) else "clause %d of case kind %d" % (n, kind)
+            else:
+                name = "clause of case kind %d" % kind
+            if (kind, name) in seen:
+                continue
+            seen.add((kind, name))
+            ctx.oracle.append({"kind": "clause-violated-kind%d" % kind, "term": term, "harness": harness_of.get(term, "?"),
+                               "detail": "the observed behaviour of the implementation violates the property clause '%s' "
+                                         "(decidable checker PropCheck.prop_ok, sound w.r.t. PropCheck.Clause; independent of the model)" % name})
+
+    def obligation_diagnostics(self, ctx):
+        """When a model-vs-dump obligation breaks: list the arguments on which the model and the current code differ."""
+        if not any("Obligations.v" in w for w, _ in ctx.broken):
+            return
+        for name in ("recvhttp_diff", "errors_diff"):
+            val = vlib.coq_eval_term(ctx, "C15.PropCheck", name)
+            if "[]" not in val.replace(" ", "")[:40]:
+                ctx.notes.append("obligation broken: lines of the dumped graph on which Model.v and the current code differ (%s): %s" % (name, val[:1500]))
+                ctx.broken.append(("model differs from the dumped graph of the current code (%s)" % name, val[:3000]))
+
     def extra_checks(self, ctx):
+        self.obligation_diagnostics(ctx)
+        self.clause_check(ctx)
+        self.compression_coverage(ctx)
+
+    def compression_coverage(self, ctx):
         """Coverage obligation: every compression offered by both confighttp sides was exercised by the hop harness on
         both OTLP/HTTP encodings, with a multi-block body."""
         offered = getattr(self, "offered_http_compressions", None)
